@@ -13,7 +13,8 @@ namespace etl {
 /// https://en.cppreference.com/w/cpp/string/byte/strtoul
 [[nodiscard]] constexpr auto strtoul(char const* str, char const** last, int base) noexcept -> unsigned long
 {
-    auto const res = strings::to_integer<unsigned long>(str, static_cast<unsigned long>(base));
+    constexpr auto opts = strings::to_integer_c_options;
+    auto const res      = strings::to_integer<unsigned long, opts>(str, static_cast<unsigned long>(base));
     if (last != nullptr) {
         *last = res.end;
     }
@@ -25,7 +26,8 @@ namespace etl {
 /// https://en.cppreference.com/w/cpp/string/byte/strtoul
 [[nodiscard]] constexpr auto strtoull(char const* str, char const** last, int base) noexcept -> unsigned long long
 {
-    auto const res = strings::to_integer<unsigned long long>(str, static_cast<unsigned long long>(base));
+    constexpr auto opts = strings::to_integer_c_options;
+    auto const res      = strings::to_integer<unsigned long long, opts>(str, static_cast<unsigned long long>(base));
     if (last != nullptr) {
         *last = res.end;
     }
